@@ -62,11 +62,79 @@ def _is_simple(e):
     return False
 
 
+def _contains_return(stmts):
+    return any(isinstance(x, ast.Return) for st in stmts for x in ast.walk(st))
+
+
+def _structure_returns(stmts, var):
+    """Rewrite a block whose `return`s all sit in tail positions of if / else chains (guard clauses, early returns) into an equivalent
+    block without `return`: every `return e` becomes `var = e`, and the statements behind an `if` one of whose branches always
+    returns move into the other branch.  Returns (new statements, always assigns var) or None when a return sits inside a loop /
+    try / with or a branch returns only sometimes."""
+    out = []
+    for i, st in enumerate(stmts):
+        if isinstance(st, ast.Return):
+            out.append(ast.copy_location(ast.Assign(targets=[ast.Name(id=var, ctx=ast.Store())],
+                                                    value=st.value if st.value is not None else ast.Constant(value=None), lineno=st.lineno), st))
+            return out, True
+        if not _contains_return([st]):
+            out.append(st)
+            continue
+        if not isinstance(st, ast.If):
+            return None
+        b = _structure_returns(st.body, var)
+        o = _structure_returns(st.orelse, var) if st.orelse else ([], False)
+        if b is None or o is None:
+            return None
+        (bs, br), (os_, or_) = b, o
+        if br and or_:
+            out.append(ast.copy_location(ast.If(test=st.test, body=bs, orelse=os_), st))
+            return out, True
+        if (not br and _contains_return(st.body)) or (not or_ and _contains_return(st.orelse)):
+            return None
+        r = _structure_returns(stmts[i + 1:], var)
+        if r is None:
+            return None
+        rs, rr = r
+        if br:
+            out.append(ast.copy_location(ast.If(test=st.test, body=bs, orelse=os_ + rs), st))
+        else:
+            out.append(ast.copy_location(ast.If(test=st.test, body=bs + rs, orelse=os_), st))
+        return out, rr
+    return out, False
+
+
 def _single_exit(fn):
     body = [s for s in fn.body if not (isinstance(s, ast.Expr) and isinstance(s.value, ast.Constant))]
     rets = [x for x in ast.walk(fn) if isinstance(x, ast.Return)]
     if len(rets) > 1 or (rets and (not body or body[-1] is not rets[0])):
-        return None
+        # guard clauses / early returns: try to bring the body into single-exit form
+        if any(isinstance(x, (ast.FunctionDef, ast.AsyncFunctionDef, ast.Lambda, ast.Yield, ast.YieldFrom, ast.Global, ast.Nonlocal, ast.Try, ast.With))
+               for x in ast.walk(fn) if x is not fn):
+            return None
+        var = "_ret_" + fn.name.lstrip("_")
+        if any(isinstance(x, ast.Name) and x.id == var for x in ast.walk(fn)):
+            return None
+        r = _structure_returns(_clone(body), var)
+        if r is None:
+            return None
+        new, always = r
+        valued = any(x.value is not None and not (isinstance(x.value, ast.Constant) and x.value.value is None) for x in rets)
+        if not always:
+            new = [ast.copy_location(ast.Assign(targets=[ast.Name(id=var, ctx=ast.Store())], value=ast.Constant(value=None), lineno=fn.lineno), fn)] + new
+        if valued:
+            new = new + [ast.copy_location(ast.Return(value=ast.Name(id=var, ctx=ast.Load())), fn)]
+        else:
+            # a procedure: the assignments of None are dropped again
+            class _Drop(ast.NodeTransformer):
+                def visit_Assign(self, n):
+                    if len(n.targets) == 1 and isinstance(n.targets[0], ast.Name) and n.targets[0].id == var:
+                        return ast.copy_location(ast.Pass(), n)
+                    return n
+            new = [_Drop().visit(x) for x in new]
+        for x in new:
+            ast.fix_missing_locations(x)
+        return new
     for x in ast.walk(fn):
         if x is not fn and isinstance(x, (ast.FunctionDef, ast.AsyncFunctionDef, ast.Lambda, ast.Yield, ast.YieldFrom, ast.Global, ast.Nonlocal,
                                           ast.Try, ast.With)):
